@@ -230,6 +230,9 @@ impl MeasOracle {
 }
 
 pub struct Gen<'a> {
+    pub slave_only_from_start: bool,
+    pub slave_only_now: bool,
+    pub bmca_since_slave_only: bool,
     pub meas: MeasOracle,
     pub ex: InstExec,
     pub out: &'a mut Out,
@@ -248,6 +251,7 @@ impl<'a> Gen<'a> {
         for (prop, sig, detail) in self.meas.check_obs(&self.w.own_clock, &parent_before, &line, &obs) {
             self.out.oracle(prop, &sig, &detail);
         }
+        self.role_oracle(&line, &obs);
         let kind: String = {
             let ws: Vec<&str> = line.split_whitespace().collect();
             if ws[0].starts_with('P') && ws[0] != "PORT" {
@@ -277,6 +281,89 @@ impl<'a> Gen<'a> {
         }
         self.ops_in_scenario += 1;
         obs
+    }
+
+    /// C08 / C14 predicates on the implementation's own observations: who may emit what, who may feed
+    /// the servo, how many slaves, how a Faulty port may leave that state
+    fn role_oracle(&mut self, line: &str, obs: &str) {
+        let w: Vec<&str> = line.split_whitespace().collect();
+        if w.first() == Some(&"INIT") {
+            self.slave_only_from_start = w.get(6) == Some(&"1");
+            self.slave_only_now = self.slave_only_from_start;
+            self.bmca_since_slave_only = false;
+            return;
+        }
+        let parts: Vec<&str> = obs.split(" | ").collect();
+        if parts.len() < 3 {
+            return;
+        }
+        let before: Vec<String> = self.w.ports.iter().map(|p| p.state.clone()).collect();
+        let after: Vec<String> = parts.iter().find(|p| p.starts_with("S ")).map(|p| p[2..].split(',').map(|x| x.to_string()).collect()).unwrap_or_default();
+        if w.first() == Some(&"SET") && w.get(1) == Some(&"slave_only") {
+            self.slave_only_now = w.get(2) == Some(&"1");
+            self.slave_only_from_start = false;
+            self.bmca_since_slave_only = false;
+        }
+        if w.first() == Some(&"BMCA") {
+            self.bmca_since_slave_only = true;
+        }
+        let nslaves = after.iter().filter(|s| *s == "Slave").count();
+        if nslaves > 1 {
+            self.out.oracle("C08", "two-slave-ports", &format!("{line} -> states {}", after.join(",")));
+        }
+        for (i, st) in after.iter().enumerate() {
+            if st == "Slave" && self.w.ports.get(i).map(|p| p.master_only).unwrap_or(false) {
+                self.out.oracle("C08", "master-only-port-slave", &format!("{line} -> port {} is Slave", i + 1));
+            }
+            if st == "Master" && self.slave_only_from_start {
+                self.out.oracle("C08", "slave-only-instance-has-master", &format!("{line} -> port {} is Master on an instance configured slave-only from the start", i + 1));
+            }
+            if st == "Master" && self.slave_only_now && self.bmca_since_slave_only && w.first() == Some(&"BMCA") {
+                self.out.oracle("C08", "master-after-slave-only-and-bmca", &format!("{line} -> port {} still Master after slave-only was switched on and a BMCA run completed", i + 1));
+            }
+        }
+        let mut had_peer_meas = vec![false; after.len()];
+        for item in parts[0].split(" ; ") {
+            let Some((pk, rest)) = item.split_once(':') else { continue };
+            let Ok(k) = pk.trim_start_matches('P').parse::<usize>() else { continue };
+            if k == 0 || k > before.len() {
+                continue;
+            }
+            let st = before[k - 1].as_str();
+            if let Some(r) = rest.strip_prefix("send ") {
+                let hexs = r.split_whitespace().last().unwrap_or("");
+                let ty = u8::from_str_radix(&hexs.get(1..2).unwrap_or("f"), 16).unwrap_or(15);
+                let name = match ty { 0x0 => "Sync", 0x8 => "Follow_Up", 0x9 => "Delay_Resp", 0xb => "Announce", 0x1 => "Delay_Req", _ => "" };
+                if matches!(ty, 0x0 | 0x8 | 0x9 | 0xb) && st != "Master" {
+                    self.out.oracle("C08", &format!("{}-from-non-master", name.to_lowercase()), &format!("{line} -> {} emitted by port {k} in state {st}", name));
+                    if st == "Faulty" {
+                        self.out.oracle("C14", "faulty-port-acts-as-master", &format!("{line} -> {} emitted by Faulty port {k}", name));
+                    }
+                }
+                if ty == 0x1 && st != "Slave" {
+                    self.out.oracle("C08", "delay-req-from-non-slave", &format!("{line} -> Delay_Req emitted by port {k} in state {st}"));
+                }
+            }
+            if let Some(r) = rest.strip_prefix("meas ") {
+                let f: Vec<&str> = r.split_whitespace().collect();
+                if f.len() == 6 {
+                    if (f[4] != "-" || f[5] != "-") && st != "Slave" {
+                        self.out.oracle("C08", "servo-fed-by-non-slave", &format!("{line} -> sync/delay measurement handed to the filter of port {k} in state {st}"));
+                        if st == "Faulty" {
+                            self.out.oracle("C14", "faulty-port-steers", &format!("{line} -> sync/delay measurement on Faulty port {k}"));
+                        }
+                    }
+                    if f[3] != "-" {
+                        had_peer_meas[k - 1] = true;
+                    }
+                }
+            }
+        }
+        for i in 0..after.len().min(before.len()) {
+            if before[i] == "Faulty" && after[i] != "Faulty" && !had_peer_meas[i] {
+                self.out.oracle("C14", "faulty-left-without-clean-exchange", &format!("{line} -> port {} went Faulty -> {} without a completed peer delay exchange", i + 1, after[i]));
+            }
+        }
     }
 
     /// feedback: port states, parent, pending timestamp contexts, forwarded TLVs
@@ -962,6 +1049,9 @@ impl<'a> Gen<'a> {
 pub fn generate(out: &mut Out, rng: &Prng, thorough: bool) {
     let scenarios = if thorough { 6000 } else { 350 };
     let mut g = Gen {
+        slave_only_from_start: false,
+        slave_only_now: false,
+        bmca_since_slave_only: false,
         meas: MeasOracle::default(),
         ex: InstExec::new(),
         out,
